@@ -153,6 +153,9 @@ func (x *Exec) ghostLock(st *State, kind string, loc lockLoc) Val {
 
 func (f *frame) lockLocOf(v Val) lockLoc {
 	v = f.x.fixPtr(v)
+	if v.P.Kind == ptrGlobal {
+		return lockLoc{Base: "1", Key: "global:" + v.P.Global + ":" + v.P.Path}
+	}
 	return lockLoc{Base: v.S, Key: typeKey(v.P.Root) + ":" + v.P.Path}
 }
 
@@ -409,6 +412,10 @@ func (sc *modScanner) call(c *ssa.CallCommon, depth int) {
 			sc.ghostClass("chan.close")
 		}
 	case *ssa.Function:
+		if ks, ok := externModelKeys[callee.String()]; ok {
+			ks(sc, c)
+			return
+		}
 		sc.fn(callee, depth)
 	case *ssa.MakeClosure:
 		sc.fn(callee.Fn.(*ssa.Function), depth)
@@ -424,8 +431,7 @@ func (sc *modScanner) call(c *ssa.CallCommon, depth int) {
 func (sc *modScanner) fn(fn *ssa.Function, depth int) {
 	x := sc.x
 	name := fn.String()
-	if ks, ok := externModelKeys[name]; ok {
-		ks(sc)
+	if _, ok := externModelKeys[name]; ok {
 		return
 	}
 	if _, ok := externModels[name]; ok {
@@ -442,24 +448,51 @@ func (sc *modScanner) fn(fn *ssa.Function, depth int) {
 		sc.contract(ct)
 		return
 	}
-	if len(fn.Blocks) > 0 && inlinable(fn) {
-		if sc.seen[fn] {
-			return
-		}
-		sc.seen[fn] = true
-		for _, b := range fn.Blocks {
-			for _, in := range b.Instrs {
-				sc.instr(in, depth+1)
-			}
-		}
+	if len(fn.Blocks) > 0 && (x.prog.isRepoFunc(fn) || (inlinable(fn) && x.prog.inlineLib(fn))) {
+		sc.body(fn, depth)
 		return
 	}
 	sc.ghostClass(name)
 }
 
+// body scans every instruction of fn (loops do not matter for a static write set).
+func (sc *modScanner) body(fn *ssa.Function, depth int) {
+	if sc.seen[fn] {
+		return
+	}
+	sc.seen[fn] = true
+	for _, b := range fn.Blocks {
+		for _, in := range b.Instrs {
+			sc.instr(in, depth+1)
+		}
+	}
+	// closures created by fn may be called (directly, deferred, through sync.Once.Do ...)
+	for _, a := range fn.AnonFuncs {
+		sc.body(a, depth+1)
+	}
+}
+
+// staticWrites returns the heap keys fn may write, computed statically.
+func (x *Exec) staticWrites(fn *ssa.Function) map[string]bool {
+	if x.writeSets == nil {
+		x.writeSets = map[*ssa.Function]map[string]bool{}
+	}
+	if ks, ok := x.writeSets[fn]; ok {
+		return ks
+	}
+	sc := &modScanner{x: x, keys: map[string]bool{}, seen: map[*ssa.Function]bool{}}
+	sc.body(fn, 0)
+	x.writeSets[fn] = sc.keys
+	return sc.keys
+}
+
 // contract: keys named by a callee's modifies clause (types only).
 func (sc *modScanner) contract(ct *Contract) {
 	x := sc.x
+	if ct.ModStatic && ct.Fn != nil {
+		sc.body(ct.Fn, 0)
+		return
+	}
 	if ct.ModAll {
 		panic(unsupported("call to a `modifies *` function inside a loop: " + ct.Key))
 	}
